@@ -1477,7 +1477,7 @@ class Container:
         # concentration): noise is relative to the other amount - the last digits of a float - never an absolute volume
         # (... and one stored digit of the solute: the stock's own concentration is known no better than that)
         # Only the solvent portion can be such a zero, and then the whole quantity comes from the source.
-        negligible = 1e-9 + 10 ** -config.internal_precision / source.contents[solute]
+        negligible = 1e-9 + 10 ** -config.internal_precision * (1 / source.contents[solute] + 1 / source.volume)
         if abs(y) <= negligible * (abs(x) + abs(y)) and a[1][0] > 0:
             x, y = quantity_value / a[1][0], 0.
         if x < 0 or y < 0:
